@@ -16,7 +16,7 @@ TRUSTED = [
 ]
 ASSUME = [
     "array index sorts are first-order in Sem.v; the theorems hold for all terms, the correspondence covers generated formulas of all theories",
-    "types: the closure under component sorts is modelled and correspondence-checked; no declarative theorem is stated for it yet",
+    "sizes DAG_NODES / SYMBOLS / BOOL_DAG are the model's definitions (set cardinalities), tied by correspondence and the independent recursive definitions",
 ]
 
 
